@@ -49,6 +49,20 @@ void hnd_obs(coap_resource_t *, coap_session_t *, const coap_pdu_t *, const coap
   coap_pdu_set_code(response, COAP_RESPONSE_CODE_CONTENT);
   coap_add_data(response, 8, BODY);
 }
+// The application serves a 48-byte body in 16-byte blocks itself and does not announce the total size (no Size2, RFC 7959 section 4):
+// the client's re-assembly buffer has to grow block by block.
+void hnd_appblk(coap_resource_t *, coap_session_t *, const coap_pdu_t *request, const coap_string_t *, coap_pdu_t *response) {
+  coap_opt_iterator_t oi;
+  coap_opt_t *o = coap_check_option(request, COAP_OPTION_BLOCK2, &oi);
+  unsigned num = o ? coap_opt_block_num(o) : 0;
+  if (num > 2) { coap_pdu_set_code(response, COAP_RESPONSE_CODE_BAD_OPTION); return; }
+  coap_pdu_set_code(response, COAP_RESPONSE_CODE_CONTENT);
+  uint8_t buf[4];
+  uint8_t etag = 0x33;
+  coap_add_option(response, COAP_OPTION_ETAG, 1, &etag);
+  coap_add_option(response, COAP_OPTION_BLOCK2, coap_encode_var_safe(buf, sizeof buf, (num << 4) | ((num < 2) << 3) | 0), buf);
+  coap_add_data(response, 16, BODY + 16 * num);
+}
 void hnd_async(coap_resource_t *, coap_session_t *session, const coap_pdu_t *request, const coap_string_t *, coap_pdu_t *response) {
   coap_bin_const_t t = coap_pdu_get_token(request);
   if (!coap_find_async(session, t)) {
@@ -79,9 +93,10 @@ coap_response_t resp_cb(coap_session_t *, const coap_pdu_t *, const coap_pdu_t *
 }
 void nack_cb(coap_session_t *, const coap_pdu_t *, const coap_nack_reason_t, const coap_mid_t) { g->nacks++; }
 
-const char *SCEN[] = {"udp_get", "udp_put_block1", "udp_get_block2", "observe", "tcp_get", "uri_helpers", "async", "wellknown", "setup_teardown", "non_get", "ws_get"};
-const int NSCEN = 11;
-const uint64_t KMAX = 160;      // larger than the allocation count of every scenario (29..70 + canary)
+const char *SCEN[] = {"udp_get", "udp_put_block1", "udp_get_block2", "observe", "tcp_get", "uri_helpers", "async", "wellknown", "setup_teardown", "non_get", "ws_get",
+                      "wellknown_big", "app_block2"};
+const int NSCEN = 13;
+const uint64_t KMAX = 260;      // larger than the allocation count of every scenario (29..70 + canary)
 
 // returns false when set-up could not be completed (allocation failed early): nothing more to drive
 bool setup(S18 &s, const std::string &sc) {
@@ -96,7 +111,8 @@ bool setup(S18 &s, const std::string &sc) {
     World::AsNode as(1);
     coap_context_set_block_mode(s.sctx, COAP_BLOCK_USE_LIBCOAP | COAP_BLOCK_SINGLE_BODY);
     struct { const char *name; coap_request_t m; coap_method_handler_t h; } rs[] = {
-        {"get", COAP_REQUEST_GET, hnd_get}, {"big", COAP_REQUEST_GET, hnd_big}, {"put", COAP_REQUEST_PUT, hnd_put}, {"obs", COAP_REQUEST_GET, hnd_obs}, {"async", COAP_REQUEST_GET, hnd_async}};
+        {"get", COAP_REQUEST_GET, hnd_get}, {"big", COAP_REQUEST_GET, hnd_big}, {"put", COAP_REQUEST_PUT, hnd_put}, {"obs", COAP_REQUEST_GET, hnd_obs}, {"async", COAP_REQUEST_GET, hnd_async},
+        {"appblk", COAP_REQUEST_GET, hnd_appblk}};
     for (auto &r : rs) {
       coap_resource_t *x = coap_resource_init(coap_make_str_const(r.name), 0);
       if (!x) return false;      // clean failure of the set-up: the application knows and stops here
@@ -104,6 +120,18 @@ bool setup(S18 &s, const std::string &sc) {
       if (std::string(r.name) == "obs") { coap_resource_set_get_observable(x, 1); s.obs = x; }
       coap_add_attr(x, coap_make_str_const("rt"), coap_make_str_const("\"t\""), 0);
       coap_add_resource(s.sctx, x);
+    }
+    if (sc == "wellknown_big") {
+      // a directory that needs several Block2 blocks: lg_xmit, skeletal PDU and PDU growth all allocate inside the large-response set-up
+      static char names[40][24];
+      for (int i = 0; i < 40; i++) {
+        snprintf(names[i], sizeof names[i], "sensors/room%02d/temp", i);
+        coap_resource_t *x = coap_resource_init(coap_make_str_const(names[i]), 0);
+        if (!x) return false;
+        coap_register_request_handler(x, COAP_REQUEST_GET, hnd_get);
+        coap_add_attr(x, coap_make_str_const("rt"), coap_make_str_const("\"temperature-c\""), 0);
+        coap_add_resource(s.sctx, x);
+      }
     }
   }
   if (!cx::new_endpoint(w, 1, s.sctx, 5683, proto)) return false;
@@ -126,7 +154,12 @@ void request(S18 &s, int code, const char *path, uint8_t tok0, bool observe, int
   uint8_t tok[4] = {tok0, 0x18, 0x01, 0x02};
   int ok = coap_add_token(p, 4, tok);
   if (observe) { uint8_t v = (uint8_t)obs_val; ok &= coap_add_option(p, COAP_OPTION_OBSERVE, obs_val ? 1 : 0, &v) != 0; }
-  ok &= coap_add_option(p, COAP_OPTION_URI_PATH, strlen(path), (const uint8_t *)path) != 0;
+  for (const char *seg = path; *seg;) {       // one Uri-Path option per segment
+    const char *e = strchr(seg, '/');
+    size_t n = e ? (size_t)(e - seg) : strlen(seg);
+    ok &= coap_add_option(p, COAP_OPTION_URI_PATH, n, (const uint8_t *)seg) != 0;
+    seg += n + (e ? 1 : 0);
+  }
   if (body) {
     s.submitted++;
     if (!coap_add_data_large_request(s.sess, p, body, BODY, release_cb, nullptr)) { coap_delete_pdu(p); return; }   // documented: release already called on failure? judged by counters
@@ -168,6 +201,8 @@ void drive(S18 &s, const std::string &sc) {
     w.run_for_ms(3000);
   } else if (sc == "async") { request(s, 1, "async", 7, false, 0, 0); w.run_for_ms(5000); }
   else if (sc == "wellknown") { request(s, 1, ".well-known/core", 8, false, 0, 0); w.run_for_ms(3000); }
+  else if (sc == "wellknown_big") { request(s, 1, ".well-known/core", 8, false, 0, 0); w.run_for_ms(120000); }
+  else if (sc == "app_block2") { request(s, 1, "appblk", 9, false, 0, 0); w.run_for_ms(120000); }
   else if (sc == "setup_teardown") { w.run_for_ms(100); }
 }
 
@@ -176,7 +211,7 @@ struct C18 : Property {
     id = "C18";
     level = "fault_enumeration";
     technique = "fault enumeration inside deterministic simulation: every allocation index of every scenario of a fixed catalogue fails in turn (link-time wrap of coap_malloc_type/coap_realloc_type); sanitizers, allocator ledger and a canary exchange as oracle";
-    rule_text = "plan = (scenario of the catalogue, index k): the scenario (set-up, exchange, canary exchange with memory available, tear-down) is executed with exactly the k-th allocation made through coap_malloc_type/coap_realloc_type failing; indices 0..(scenarios x 160) enumerate all k for every scenario (k beyond the scenario's allocation count = fault-free control run), thorough adds seeded pairs (k, k'). Non-trivial: the injected failure actually fired; distinct = distinct (scenario, k) with a fired failure. A run = one evaluation.";
+    rule_text = "plan = (scenario of the catalogue, index k): the scenario (set-up, exchange, canary exchange with memory available, tear-down) is executed with exactly the k-th allocation made through coap_malloc_type/coap_realloc_type failing; indices 0..(scenarios x 260) enumerate all k for every scenario (k beyond the scenario's allocation count = fault-free control run), thorough adds seeded pairs (k, k'). Non-trivial: the injected failure actually fired; distinct = distinct (scenario, k) with a fired failure. A run = one evaluation.";
     real_components = {"libcoap: coap_mem.c funnel and every caller - coap_net.c, coap_pdu.c, coap_session.c, coap_resource.c, coap_block.c, coap_subscribe.c, coap_async.c, coap_uri.c, coap_str.c, coap_option.c, coap_io.c, coap_tcp.c, coap_ws.c"};
     stub_components = {"simk allocator wrapper (failure injection, live-object ledger), network, clock"};
     assumptions = {"direct malloc() calls inside uthash (hash table bucket growth) are not part of the funnel named by the property and are not failed here (uthash calls exit(-1) on OOM)",
@@ -186,7 +221,7 @@ struct C18 : Property {
     quick_max_runs = (uint64_t)NSCEN * KMAX;
   }
   uint64_t family_size(bool) override { return (uint64_t)NSCEN * KMAX; }
-  std::string family_name() override { return "all (scenario, k) with k <= 160 for the 11 scenarios of the catalogue (allocation counts per scenario are 29..70; larger k are fault-free control runs)"; }
+  std::string family_name() override { return "all (scenario, k) with k <= 260 for the 13 scenarios of the catalogue (allocation counts per scenario are 29..240; larger k are fault-free control runs)"; }
 
   json generate(uint64_t base, uint64_t index, bool) override {
     json p;
